@@ -228,7 +228,12 @@ class TreeBuilder(ET.TreeBuilder):
         Keep track of open elements so that end()/close() can verify that
         aggregates are properly nested; ET.TreeBuilder itself doesn't.
         """
-        self._opentags().append(tag)
+        opentags = self._opentags()
+        if not opentags and getattr(self, "_rootclosed", False):
+            # The C implementation of ET.TreeBuilder refuses this by itself;
+            # the pure-Python one returns the first tree and says nothing.
+            raise ParseError(f"<{tag}> follows the end of the root element")
+        opentags.append(tag)
         return super().start(tag, attrs)
 
     def end(self, tag):
@@ -237,6 +242,8 @@ class TreeBuilder(ET.TreeBuilder):
             expected = f"<{opentags[-1]}>" if opentags else "nothing"
             raise ParseError(f"End tag </{tag}> doesn't match open element {expected}")
         opentags.pop()
+        if not opentags:
+            self._rootclosed = True
         return super().end(tag)
 
     def close(self):
